@@ -306,7 +306,7 @@ theorem joinSpec_globals_sublist (A B : List Entry) (P : RIdx → Bool) :
     | some b =>
       simp only [Option.map_some, List.filter_cons, List.map_cons]
       split
-      · simp only [List.map_cons]; exact List.Sublist.cons₂ _ ih
+      · simp only [List.map_cons]; exact List.Sublist.cons_cons _ ih
       · exact List.Sublist.cons _ ih
 
 theorem joinSpec_globals_sorted {A : List Entry} (hA : StrictSorted A) (B : List Entry) (P : RIdx → Bool) :
